@@ -21,24 +21,29 @@ ID = 'C08'
 LEVEL = 'exploration'
 RULE = ('grid (complete in both tiers): int x size {none,8,16,24,32,64} x unsigned x min in {none,-100,-1,0,1,implied limit,'
         'limit+1} x max in {none,-1,0,1,100,implied limit,limit-1} x Required/Optional; float and Decimal min,max in {none,-1,0,1,'
-        '0.0,-0.0,fractions,extremes; int- and exact-typed} (Decimal x 5 precision/scale pairs); str max_len {none,1,2,5,40} x '
+        '0.0,-0.0,fractions (Decimal: incl. 0.1, -0.7, 1.1),extremes; int- and exact-typed} (Decimal x 5 precision/scale pairs); str max_len {none,1,2,5,40} x '
         'autostrip {absent,True,False} x Required/Optional/nullable; bool; py_check callables; unique and '
         'PrimaryKey variants; default values (plain and callable) on and across bounds. random: hypothesis declarations with '
         'bounds to +-2^63 / 1e300 / any scale plus extra random candidates. A case is one (declaration, candidate value) pair '
         'evaluated on all paths (constructor, assignment, set(), get/exists/select/filter/where[/E[v]]); candidates are the '
         'values on, +-1/+-2 steps around every declared or size-implied bound, fixed probes, None, \'\' and whitespace; '
-        'exact-type only. Non-trivial = candidate is None or within one step (int 1, float 1.0 or 1 ulp, Decimal one quantum, '
+        'exact-type values plus, for float/Decimal attributes, the same numbers given as int/float (float -> Decimal incl. '
+        'floats that are not binary fractions, on and around the bounds). Non-trivial = candidate is None or within one step (int 1, float 1.0 or 1 ulp, Decimal one quantum, '
         'str length within 1 of max_len / changed by strip) of a bound; distinct by (declaration, value).')
 ASSUMPTIONS = ['SQLite in-memory through pony.orm.dbproviders.sqlite (other providers share Attribute.validate and the '
                'dbapiprovider converters but their sized column types are not exercised)',
                'vlib.c08_ref is the documented meaning of Required/Optional/nullable/min/max/size/unsigned/max_len/'
                'autostrip/py_check/default; int without size and unsigned is asserted only inside the signed 32-bit range',
+               'a numeric input of another numeric type denotes the same number in the declared type: int -> float(v), '
+               'int -> Decimal(v), float -> Decimal(repr(v)) (shortest round-trip string, Python semantics); not stated in the '
+               'documentation, taken from the evident intent of the converters and the pinned suite (Required(Decimal, default=0))',
                'Decimal candidates are limited to values representable at the declared precision/scale (<= 15 digits); '
                'float lookups allow neighbours within relative 1e-12 (pony compares floats with a tolerance)']
 SHARDS = {'quick': 4, 'thorough': 16}
 MIN_EVALS = {'quick': 40000, 'thorough': 400000}
 CLASS_FLOORS = {'verdict:reject': 0.15, 'verdict:accept': 0.25, 'nontrivial': 0.10, 'zero_bound': 0.05, 'random': 0.05,
-                'py_check': 0.03, 'key': 0.03, 'has_default': 0.03}
+                'py_check': 0.03, 'key': 0.03, 'has_default': 0.03, 'coerced:float->Decimal': 0.02,
+                'coerced:float->Decimal:not_binary': 0.01, 'coerced:int->Decimal': 0.01, 'coerced:int->float': 0.01}
 EXHAUSTIVE = {'quick': True, 'thorough': True}
 
 LOOKUPS = ('get', 'exists', 'select', 'filter', 'where')
@@ -81,7 +86,8 @@ def grid():
         for kind in ('Required', 'Optional'):
             out.append(_spec(kind, 'float', o))
     # Decimal
-    db_ = [None, -1, 0, 1, Decimal('0'), Decimal('0.00'), Decimal('-0.5'), Decimal('2.25'), Decimal('0.005')]
+    db_ = [None, -1, 0, 1, Decimal('0'), Decimal('0.00'), Decimal('-0.5'), Decimal('2.25'), Decimal('0.005'),
+           Decimal('0.1'), Decimal('-0.7'), Decimal('1.1')]        # the last three are not binary fractions
     for ps in (None, (5, 2), (4, 1), (3, 3), (15, 4)):
         for mn, mx in itertools.product(db_, db_):
             o = {}
@@ -337,7 +343,7 @@ class Runner(object):
             hit = self.stored.get(ref.normkey(exp))
             if hit is None: return False          # the constructor path already failed for this value
             expected = {hit[0]}
-        near = self._near(v) if want == 'accept' else set()
+        near = self._near(exp) if want == 'accept' else set()     # neighbours of the normalised value
         paths = LOOKUPS + (('getitem',) if self.is_pk else ())
         with db_session:
             try:
@@ -461,6 +467,10 @@ def check_decl(ctx, spec, values, classes=()):
         want = ref.verdict(spec, v)[0]
         nt = ref.near_bound(spec, v)
         cl = ['type:' + t, 'kind:' + spec['kind'], 'verdict:' + want] + list(classes)
+        co = ref.coercion(t, v)
+        if co:
+            cl += ['coerced', 'coerced:' + co]
+            if co == 'float->Decimal' and Decimal(v) != Decimal(repr(v)): cl.append('coerced:float->Decimal:not_binary')
         if nt: cl.append('nontrivial')
         if spec.get('py_check'): cl.append('py_check')
         if 'default' in spec: cl.append('has_default')
@@ -514,7 +524,7 @@ def strategies():
         elif t == 'float':
             for b in ('min', 'max'):
                 if draw(st.booleans()): o[b] = enc(draw(st.one_of(fl, st.integers(-3, 3))))
-            extra = draw(st.lists(fl, max_size=6))
+            extra = draw(st.lists(st.one_of(fl, st.integers(-5, 5), st.integers(-2 ** 53, 2 ** 53)), max_size=6))
         elif t == 'Decimal':
             if draw(st.booleans()):
                 p = draw(st.integers(1, 15)); o['precision'] = p; o['scale'] = draw(st.integers(1, p))
@@ -526,7 +536,8 @@ def strategies():
                 if draw(st.booleans()):
                     o[b] = enc(draw(st.one_of(dv, small, st.integers(-3, 3),
                                               st.integers(-5000, 5000).map(lambda n: Decimal(n).scaleb(-s - 1)))))
-            extra = draw(st.lists(st.one_of(dv, small), max_size=6))
+            asfloat = st.one_of(dv, small).map(float)          # kept only if the float prints as a fitting decimal
+            extra = draw(st.lists(st.one_of(dv, small, asfloat, st.integers(-300, 300)), max_size=8))
         elif t == 'str':
             if draw(st.booleans()): o['max_len'] = draw(st.integers(1, 9))
             a = draw(st.sampled_from([None, True, False]))
@@ -613,7 +624,8 @@ MANIFEST = {
             'drawn declarations and values; each (declaration, value) is pushed through constructor, assignment, set(), omitted-'
             'attribute defaults and get/exists/select/filter/where/E[v] on live SQLite and compared with an independent reference '
             'predicate for acceptance and the normalised value. Exhaustive for the grid, sampled beyond it.',
-    'note': 'Exact-type values only (coercions between types are not asserted); int without size/unsigned asserted only inside '
+    'note': 'Exact-type values plus int -> float, int -> Decimal and float -> Decimal inputs (a float denotes the decimal number it '
+            'prints as); other coercions (str -> number, bool -> int, float -> int) are not asserted; int without size/unsigned asserted only inside '
             'the signed 32-bit range; max_len=0, nan/inf, Decimal digits beyond precision/scale and non-SQLite providers are '
             'outside the asserted domain.',
     'technique': 'bounded-exhaustive declaration x boundary-value grid + hypothesis random declarations against a reference predicate',
